@@ -151,6 +151,7 @@ type Policy struct {
 	EnvProb     int  // permille per step: run one environment operation if any is enabled
 	AdvanceProb int  // permille per step: advance the clock although other actions are enabled
 	EnvWhenIdle bool // quiet stages: environment operations run whenever the system is idle
+	HardAdvance bool // clock advances also age parked calls (slow server / webhook), by up to 1.5 s per step
 	WatchGone   int  // permille per served WATCH request: answer 410 Gone, which makes the reflector relist (tombstones for what vanished meanwhile)
 	FaultFilter func(r *ReqRec) bool
 }
@@ -1181,7 +1182,13 @@ var advanceSteps = []time.Duration{
 	500 * time.Millisecond, 2 * time.Second, 11 * time.Second, 61 * time.Second,
 }
 
+var hardSteps = []time.Duration{10 * time.Millisecond, 100 * time.Millisecond, 500 * time.Millisecond, time.Second, 1500 * time.Millisecond}
+
 func (w *World) advance(p *Policy, idle bool) {
+	if p.HardAdvance && !idle {
+		w.SleepHard(hardSteps[w.T.Pick(len(hardSteps), "hardadvance")])
+		return
+	}
 	d := advanceSteps[w.T.Pick(len(advanceSteps), "advance")]
 	if idle && d < 20*time.Millisecond {
 		d = 20 * time.Millisecond
